@@ -133,3 +133,56 @@ package kmipclient
 //@ func (Executor[Req, Resp]).ExecContext
 //@   requires ex.client != nil && ex.client.version != nil && (0 < len(ex.client.middlewares) ==> ex.client.middlewares[0] != nil)
 //@   ghostmod cmwCalls, cmwSelf, cmwNext, cmwCtx, cmwMsg, cmwRet, cmwErr, rtCalls, rtCtx, rtMsg, rtRet, rtErr
+
+// ---------------------------------------------------------------------------
+// connection faults, sequential clauses (C11)
+
+//@ ghostvar transmissions int
+//@ ghostvar lockHeld int
+//@ ghostvar dials int
+//@ ghostvar lastErrRetryable bool
+
+// one exchange over the current connection (select/channels: any outcome)
+//@ func (*conn).roundtrip
+//@   trusted
+//@   requires c != nil && lockHeld == 1
+//@   ensures r1 == nil ==> r0 != nil
+//@   pure
+//@   ghost transmissions = old(transmissions) + 1
+//@   ghost lastErrRetryable = erris(r1, io.EOF) || erris(r1, io.ErrClosedPipe)
+
+//@ func (*conn).Close
+//@   trusted
+//@   requires c != nil
+//@   pure
+
+//@ func newConn
+//@   trusted
+//@   ensures r0 != nil && isnew(r0)
+//@   pure
+
+//@ functype kmipclient.DialerFunc
+//@   params ctx
+//@   results stream, e
+//@   pure
+
+//@ func (*Client).reconnect
+//@   requires c != nil && c.dialer != nil && (c.conn == nil || lastErrRetryable)
+//@   ensures r0 == nil ==> c.conn != nil
+//@   ensures r0 != nil ==> c.conn == nil
+//@   modifies c.conn
+//@   ghost dials = old(dials) + 1
+
+//@ func (*Client).doRountrip
+//@   requires c != nil && c.lock != nil && c.dialer != nil && lockHeld == 0
+//@   ensures transmissions-old(transmissions) >= 0 && transmissions-old(transmissions) <= 4
+//@   ensures dials-old(dials) >= 0 && dials-old(dials) <= 4
+//@   ensures lockHeld == 0
+//@   ensures r1 == nil ==> r0 != nil
+//@   modifies c.conn
+//@   loop 0 invariant 0 <= retry && retry <= 3 && lockHeld == 1 && c.conn != nil
+//@   loop 0 invariant transmissions-old(transmissions) == 3-retry && dials-old(dials) >= 0 && dials-old(dials) <= 4-retry
+//@   loop 0 ghostmod transmissions, dials, lastErrRetryable
+
+//@ func (*Client).Close
+//@   requires c != nil
